@@ -238,8 +238,10 @@ fn malformed_strings(ctx: &Ctx) {
 fn zero_padded_lengths(ctx: &Ctx) {
     let mut rng = Rng::fork(ctx.seed, "C15-zero-tail");
     let pw = b"zero tail".to_vec();
-    for zeros in ctx.tier.pick(vec![1usize, 2], vec![1usize, 2, 3]) {
-        for round in 0..ctx.tier.pick(2, 6) {
+    // one or two zero bytes only: a blob ending in three needs ~2^24 trial encryptions per case and the search
+    // (bounded) then fails to find one in roughly one case out of ten, which made a thorough run inconclusive
+    for zeros in [1usize, 2] {
+        for round in 0..ctx.tier.pick(2, 10) {
             let salt = rng.arr32();
             let mut r2 = Rng::fork(ctx.seed, &format!("C15-zero-tail-{}-{}", zeros, round));
             let (good, sk) = match refspec::lock_sk_with_zero_tail(&pw, &salt, zeros, || r2.arr32()) {
